@@ -279,12 +279,13 @@ func (st *c09State) settle() bool {
 			}
 			switch ev.name {
 			case "guard.enq":
-				if t.gid == 0 {
+				if t.at == "" || t.at == "inc.fetched" {
+					// the call's own session; after a re-check failure it starts over on another object, whose
+					// guard then becomes the observed one (its ID counter starts at 0)
 					t.gid = ev.id
-					if st.g == nil {
-						if g, ok := ev.g.(guard.Guard); ok {
-							st.g = g
-						}
+					if g, ok := ev.g.(guard.Guard); ok && g != st.g {
+						st.g = g
+						st.c0 = 0
 					}
 				} else {
 					t.wgid = ev.id
